@@ -17,7 +17,7 @@ RULE = ("(1) every runtime block of ET/DT/ES (both Modbus framings; ES blocks of
         "style / field index, outcome class) tuples")
 ASSUMPTIONS = ["DT.read_settings_data() is outside the property's wording (it names ET and ES for the bulk settings read)",
                "a key may map to None; the key set must contain every id of the covered sensors/settings"]
-MUST = ["settings_none_pattern_checked", "undecodable_value_read_twice", "stateful_decode_compared", "settings_registers_refused", "single_reads_after_capability_change", "blocks_decoded", "none_values_seen", "valueerror_paths_seen", "field_sweeps", "end_to_end_runtime",
+MUST = ["repeated_polls_all_ids", "time_field_ranges_checked", "settings_none_pattern_checked", "undecodable_value_read_twice", "stateful_decode_compared", "settings_registers_refused", "single_reads_after_capability_change", "blocks_decoded", "none_values_seen", "valueerror_paths_seen", "field_sweeps", "end_to_end_runtime",
         "end_to_end_settings", "single_reads", "es_short_blocks"]
 EXHAUSTIVE = {"quick": False, "thorough": True}
 
@@ -96,6 +96,7 @@ def fields_part(spec, part):
     targets = [t for i, t in enumerate(targets) if i % spec["shards"] == spec["shard"] % spec["shards"] or spec["shards"] == 1]
     for sn in targets:
         size = sn.size_
+        tname = type(sn).__name__
         for field in range(size // 2):
             if (field + spec["shard"]) % max(1, spec.get("fshards", 1)) != 0 and spec.get("fshards", 1) > 1:
                 continue
@@ -120,6 +121,16 @@ def fields_part(spec, part):
                     try:
                         sn.read_value(PR(bytes(b), None))
                         ok += 1
+                        if tname != "Timestamp":
+                            # documented ranges of the time fields: hours 0..23 (48 = 'not set'), minutes 0..59; 12-byte groups also 0xFF = unset
+                            hs, ms = (b[0], b[2]), (b[1], b[3])
+                            extra = (255,) if size == 12 else ()
+                            if any(h > 23 and h != 48 and h not in extra for h in hs) or any(m > 59 and m not in extra for m in ms):
+                                part.violate("C11/decode/out-of-range-schedule-field-accepted",
+                                             f"{tname}.read_value({bytes(b).hex()}) returned a value although a time field is out of range "
+                                             f"(hours {hs}, minutes {ms})", {"field": True, "range": True, "type": tname, "bytes": bytes(b).hex()})
+                            else:
+                                part.count("time_field_ranges_checked")
                         if fresh == "ValueError":
                             part.violate("C11/decode/undecodable-value-accepted-after-earlier-read",
                                          f"{type(sn).__name__}.read_value({bytes(b).hex()}) returned a value on an object that had decoded other "
@@ -163,7 +174,8 @@ def e2e_part(spec, part):
         style = rnd.choice(("random", "mixed", "sentinel", "ff", "zero"))
         if fam == "ET":
             tag = rnd.choice(("ETU", "ETT", "EHU", "BTU", "HSB", "ESN"))
-            refuse = [b for b in ("eco_v2", "peak_shaving") if rnd.random() < 0.3]
+            refuse = [b for b in ("eco_v2", "peak_shaving") if rnd.random() < 0.3] + \
+                [b for b in ("meter_ext", "meter_ext2", "mppt", "battery", "battery2") if rnd.random() < 0.2]
             sim = models.et_sim(tag=tag, rated=rnd.choice((5000, 10000, 20000, 30000)), rnd=rnd, style=style,
                                 battery_mode=rnd.choice((0, 1, 2, 0xFFFF)), refused_blocks=refuse)
             for lo, hi in ((45127, 45134), (45200, 45202), (45246, 45288), (45350, 45358), (45482, 45482), (47000, 47010),
@@ -187,9 +199,24 @@ def e2e_part(spec, part):
         async def flow(loop):
             inv = models.family_cls(g, fam)("inv0", port, 0, 1, 0)
             await inv.read_device_info()
-            out["rt"] = await inv.read_runtime_data()
-            out["rt_ids"] = {s.id_ for s in inv.sensors()}
+            # (a poll in which a refused block is discovered may fail with RequestRejectedException: C15; the following ones must
+            #  return every listed id again and again)
+            for attempt in range(4):
+                try:
+                    out["rt"] = await inv.read_runtime_data()
+                except g.exceptions.RequestRejectedException:
+                    continue
+                ids_now = {s.id_ for s in inv.sensors()}
+                if ids_now - set(out["rt"]):
+                    out["rt_ids"] = ids_now
+                    break
+                out["rt_ids"] = ids_now
+                out["rt_polls"] = out.get("rt_polls", 0) + 1
+            if "rt" not in out:
+                raise RuntimeError("read_runtime_data() was rejected four times in a row")
             part.count("end_to_end_runtime")
+            if out.get("rt_polls", 0) >= 3:
+                part.count("repeated_polls_all_ids")
             if fam in ("ET", "ES"):
                 out["st"] = await inv.read_settings_data()
                 out["st_ids"] = {s.id_ for s in inv.settings()} | set(out["st"])
